@@ -9,10 +9,13 @@ parallelism bound per loop and that every item ran exactly once with its own ite
 
 Stand-alone use:  python3 lib/props_c13.py cases.jsonl [verdicts.jsonl]   prints violations and histograms.
 
-Optional probe (not a SPEC stream: it needs its own harness binary): harness/foreach_probe_overlay.py builds an instrumented
-copy of the foreach provider, `vharness-probe foreach-probe` closes large loops within their first milliseconds and
+Probe stream (thorough tier only; `vharness foreach-probe` builds a second harness binary): harness/foreach_probe_overlay.py
+makes an instrumented copy of the CURRENT foreach provider, the probe closes large loops within their first milliseconds and
 `mon_c13_probe` checks the overlap of sub-workflow Executes counted INSIDE the provider (the plugin-side log cannot see runs
-started with a dead context).  It exhibits the schedule of theorem `parallelism_exceeded_after_cancel` on the real code.
+started with a dead context).  Before fix 26900e2 it exhibited up to 60 overlapping Executes with parallelism 1.
+
+Regression detectors of the closing path (all silent on a correct tree): C13:closed-success-with-holes,
+C13:closed-items-unreported, C13:parallelism-exceeded-after-close, C13:did-not-return, C13:left-running.
 """
 import collections
 import json
@@ -45,10 +48,12 @@ THEOREMS = [
     "Arca.Props.C13.loop_failure_exact",
     "Arca.Props.C13.each_item_runs_once",
     "Arca.Props.C13.abort_release_harmless",
-    "Arca.Props.C13.parallelism_exceeded_after_cancel",
-    "Arca.Props.C13.aborted_items_leave_no_trace",
-    "Arca.Props.C13.closed_pool_reports_success_with_holes",
+    "Arca.Props.C13.aborted_items_are_reported_as_errors",
+    "Arca.Props.C13.closed_pool_accounts_for_every_item",
 ]
+
+
+DETECTOR_MSG = "no steps running, no more executable steps"
 
 
 # ---- the declarative reading ---------------------------------------------------------------------------------------------
@@ -249,6 +254,19 @@ def mon_c13_foreach(case, verdict, chk):
     exp = expected_output(case)
     oid = res.get("output_id")
     data = M.dec(res.get("data"))
+    if oid == "failed":
+        # a known defect of ANOTHER property shows through the loop: under load the run loop's fallback deadlock detector
+        # (C09, finding F10a) fails a healthy sub-workflow run; the loop then correctly reports that item as failed.
+        # Keep it apart from the loop's own fingerprints.
+        ok_idx = set(range(case["n"])) if exp[0] == "success" else set(exp[1].keys())
+        errs = int_keys(((data or {}).get("e") or {}).get("errors"))
+        hit = sorted(i for i, m in errs.items() if i in ok_idx and isinstance(m, str) and DETECTOR_MSG in m)
+        if hit:
+            chk.violation("C13:item-failed-by-false-deadlock-detector",
+                          "item(s) %s were scripted to succeed but their sub-workflow run was failed by the run loop's fallback "
+                          "deadlock detector (C09/F10a: '%s'); parallelism %d, %d handlers at once" %
+                          (hit, DETECTOR_MSG, p, case.get("max_running", 0)), rep)
+            return
     if not oid:
         chk.violation("C13:unexpected-error:" + res.get("err_class", ""), "the parent run ended in an error although both foreach "
                       "outputs are returned by it: %s" % res.get("err", "")[:300], rep)
@@ -313,6 +331,10 @@ def mon_closed_output(case, res, chk, rep):
 
 def mon_c13_probe(case, verdict, chk):
     """optional stream `foreach-probe` (instrumented provider copy, see harness/foreach_probe_overlay.py)"""
+    res = case.get("result", {}) or {}
+    if not res.get("returned") and "panic" not in case:
+        chk.violation("C13:did-not-return", "Execute did not return within 60 s after an early close", {"kind": "impl-counterexample", "case": case})
+        return
     if case.get("execute_overlap_max", 0) > case.get("parallelism", 1):
         chk.violation("C13:parallelism-exceeded-after-close",
                       "%d sub-workflow Executes overlapped with parallelism %d (%d of them started after the step's context was "
@@ -337,6 +359,14 @@ def foreach_n(tier):
     return 600 if tier == "thorough" else 150
 
 
+def close_n(tier):
+    return 300 if tier == "thorough" else 50
+
+
+def probe_n(tier):
+    return 40 if tier == "thorough" else 0   # needs a second harness build: thorough tier only
+
+
 SPEC = {
     "module": "Arca.Props.C13",
     "theorems": THEOREMS,
@@ -346,16 +376,22 @@ SPEC = {
          "harness": lambda t, s: ["foreach", "-n", str(foreach_n(t)), "-seed", str(s), "-tier", t],
          "driver": lambda f: ["foreach"], "monitor": mon_c13_foreach, "nontrivial": nontrivial, "sample": sample},
         {"name": "foreach-close",
-         "harness": lambda t, s: ["foreach", "-close", "-n", str(foreach_n(t) // 2), "-seed", str(s + 500), "-tier", t],
+         "harness": lambda t, s: ["foreach", "-close", "-n", str(close_n(t)), "-seed", str(s + 500), "-tier", t],
          "driver": lambda f: ["foreach"], "monitor": mon_c13_foreach, "nontrivial": lambda c: bool(c.get("cancelled")),
          "sample": sample},
+        {"name": "foreach-probe",
+         "harness": lambda t, s: ["foreach-probe", "-n", str(probe_n(t)), "-seed", str(s + 900), "-tier", t],
+         "driver": None, "monitor": mon_c13_probe,
+         "nontrivial": lambda c: bool(c.get("cancelled")) and c.get("execute_overlap_max", 0) > 0, "sample": lambda c: c},
     ],
     "rule": ("whole-engine runs of a parent workflow with one foreach step (1 in 5: nested, the sub-workflow loops again) over "
              "generated item lists (0..40 items, thorough 200), parallelism omitted / literal / from the input in 1..n+1, per-item "
              "outcomes success / error / alt / crash and per-item durations chosen so that items finish out of order; "
              "distinct = distinct items + parallelism + declared outputs; non-trivial = at least two items and (a failing item or "
              "out-of-order completion); the close stream cancels the parent context at a random instant (non-trivial = the "
-             "cancellation hit the run)"),
+             "cancellation hit the run; checked: Execute returns, nothing left running, bound kept, every index accounted for); "
+             "thorough only: the probe stream closes 150..250-item loops within 1..2 ms and counts overlapping sub-workflow "
+             "Executes inside an instrumented copy of the provider (non-trivial = closed while items were executing)"),
 }
 
 
